@@ -152,7 +152,7 @@ func (t1 *Tasks) Merge(t2 *Tasks, include *Include, includedTaskfileVars *Vars) 
 
 			// Add namespaces to task aliases
 			for i, alias := range task.Aliases {
-				task.Aliases[i] = taskNameWithNamespace(alias, include.Namespace)
+				task.Aliases[i] = strings.TrimPrefix(taskNameWithNamespace(alias, include.Namespace), NamespaceSeparator)
 			}
 
 			// Add namespace aliases
@@ -244,8 +244,11 @@ func (t *Tasks) UnmarshalYAML(node *yaml.Node) error {
 }
 
 func taskNameWithNamespace(taskName string, namespace string) string {
+	// A reference that starts with the separator names a task of the root
+	// Taskfile. It is kept as it is at every level of inclusion (and resolved
+	// when the task is looked up), otherwise an outer include would prefix it.
 	if strings.HasPrefix(taskName, NamespaceSeparator) {
-		return strings.TrimPrefix(taskName, NamespaceSeparator)
+		return taskName
 	}
 	return fmt.Sprintf("%s%s%s", namespace, NamespaceSeparator, taskName)
 }
